@@ -235,7 +235,7 @@ def bandwidth_rules(chk):
             chk.ob("R-BW", c + "{results}", "%d result(s)" % len(outs), False, derived="%d" % len(vals), loc=r.fi.loc())
             continue
         for v, which in zip(vals, outs):
-            has, hasnot = ("sel:first", "sel:last") if which == "first" else ("sel:last", "sel:first")
+            has, hasnot = ("at:lo", "at:hi") if which == "first" else ("at:hi", "at:lo")
             expect(chk, "R-BW", c + ".%s" % which, v, tags_has=[has, "attr:_smooth_fa_freqs"], tags_not=[hasnot], kind=K_SCALAR,
                    const_in=[], loc=r.fi.loc())
             # the value is read from the frequency array, not from the spectrum
